@@ -992,6 +992,9 @@ get_trait(has_traits_object *obj, PyObject *name, int instance)
 
     /* Create a new instance trait and clone the class trait into it: */
     itrait = (trait_object *)PyType_GenericAlloc(ctrait_type, 0);
+    if (itrait == NULL) {
+        return NULL;
+    }
     trait_clone(itrait, trait);
     itrait->obj_dict = trait->obj_dict;
     Py_XINCREF(itrait->obj_dict);
@@ -1001,6 +1004,7 @@ get_trait(has_traits_object *obj, PyObject *name, int instance)
         Py_ssize_t n = PyList_GET_SIZE(notifiers);
         itrait->notifiers = inotifiers = (PyListObject *)PyList_New(n);
         if (inotifiers == NULL) {
+            Py_DECREF(itrait);
             return NULL;
         }
 
@@ -1019,6 +1023,7 @@ get_trait(has_traits_object *obj, PyObject *name, int instance)
     }
 
     /* Otherwise, indicate that an error ocurred updating the dictionary: */
+    Py_DECREF(itrait);
     return NULL;
 }
 
